@@ -326,7 +326,7 @@ def shard(tier, i, n, seed):
     for idx, sl, T, v in cases(tier):
         if (idx + seed) % n != i:
             continue
-        guarded(R, lambda: check_case(idx, sl, T, v, R), {'slice': sl, 'T': T, 'v': v}, CM.type_features(T), idx)
+        guarded(R, lambda: check_case(idx, sl, T, v, R), {'slice': sl, 'T': T, 'v': v}, CM.type_features(T), idx, cpu_limit=180)
         R.features['slice:' + sl] += 1
         if idx % 4001 == seed % 4001:
             R.sample({'T': M.show_type(T), 'v': v, 'python_tree': repr(B.py_tree(T, v))})
